@@ -18,13 +18,14 @@ from vplib import *
 
 PROP = "C11"
 CONVS = ["ca", "cb", "cc"]
-NEXT = 4
+NEXT = 13
 
 VALID_NAMES = ["tag/a", "tag/b", "tag/c", "tag/d", "service/s", "service/a", "mark/m", "mark/n", "generated/g", "tag/a/b"]
 BAD_NAMES = ["foo", "tag/", "mark/", "/x", "tagg/a", "", "tag", "Tag/a", "generated/", "service", "tag\\a"]
 PLAIN_DEFS = ["sport:80", "cport:1", "cport:2,3", "cdata:foo", "sdata:bar", "protocol:udp", "chost:1.2.3.4", "sport:4321 cport:1",
               "ftime:1200:1300", "cbytes:3", "-cport:1"]
-ID_DEFS = ["id:1,2", "id:0", "id:-1", "id:1:3", "id:2 or id:3", "id:9", "id:3", "id:0,1,2,3", "id:1 id:2", "id:2:9"]
+ID_DEFS = ["id:1,2", "id:0", "id:-1", "id:1:3", "id:2 or id:3", "id:9", "id:3", "id:0,1,2,3", "id:1 id:2", "id:2:9",
+           "id:10", "id:10,1", "id:12,1,2", "id:11,1", "id:20", "id:1,10,11,12"]
 REF_DEFS = ["tag:a", "tag:b sport:80", "-tag:c", "service:s", "mark:m", "generated:g", "tag:a tag:b", "tag:a or service:a",
             "@s:tag:a cport:@s:cport@", "tag:a/b", "tag:d", "tag:b", "tag:c", "mark:n", "tag:a,b", "@s:mark:m cport:@s:cport@ tag:b",
             "tag:b cdata:foo", "service:a tag:d"]
@@ -61,7 +62,8 @@ def pick_name(rng, live, p_live=0.7):
 
 def pick_ids(rng):
     n = rng.choice([0, 1, 1, 1, 2, 3])
-    return [rng.choice([0, 0, 1, 2, 3, 3, 4, 7, 100]) for _ in range(n)]
+    # ids that share leading digits (1 / 10 / 11 / 12, 2 / 12) and ids beyond the 13 existing streams
+    return [rng.choice([0, 1, 1, 2, 2, 3, 10, 10, 11, 12, 12, 7, 13, 100]) for _ in range(n)]
 
 
 def pick_convs(rng):
@@ -422,6 +424,7 @@ def oracle(seq, impl):
     begins = {ln["i"] for ln in impl["lines"] if ln["phase"] == "begin"}
     prev, prevtags = {}, []
     settle = seq["settle"]
+    single_ops = not any(is_combo(norm_call(c)) and c["op"] == "upd" for c in seq["calls"])
     for i, c in enumerate(seq["calls"]):
         c = norm_call(c)
         ln = ends.get(i)
@@ -469,8 +472,12 @@ def oracle(seq, impl):
             if t["convs"] and ((t["mf"] | t["sf"]) & 0x80 or t["defrefs"]):
                 return i, "tag %s has converters %s attached but its definition %r matches on data / references tags (a restart refuses to attach them)" % (
                     t["name"], t["convs"], t["def"])
-            # (whether the rewritten definition text of a mark tag still denotes its matches is a
-            #  persistence question: checked by C12, not here)
+            # the definition text of a mark tag (all that a restart rebuilds the matches from) denotes exactly its matches
+            # (not in sequences with multi-operation requests: query + mark add in ONE in-package request is known to
+            #  leave them different, see notes/C11.md)
+            if ismark and settle and single_ops and t["defidok"] and sorted(t["matches"]) != sorted(t["defids"]):
+                return i, "mark tag %s: matches %s but its definition %r denotes %s (a restart would change the tag)" % (
+                    t["name"], t["matches"], t["def"], t["defids"])
         # atomicity / effect
         if ln["res"] == "err":
             if cur != prev:
@@ -786,7 +793,7 @@ def main(tier, seed, replay=None):
             "map iteration order of Go is fixed to table order in the model (inheritTagUncertainty, referencedTags)"],
         "evaluations": ncalls,
         "distinct_nontrivial": len(distinct),
-        "rule": "seeded call sequences (6-60 calls) on a fresh Manager with 4 streams and 3 converters; names from valid/invalid pools, definitions: plain, id-only, referencing existing/missing/own tags, sub-query references, unparsable, relative time, grouping; stream ids in and out of range; 2/3 of the sequences wait for quiescence after every call (matches compared), 1/3 race with the tagging jobs; 1/5 contain multi-operation updates (oracle only); 1/6 of the sequences hold a tagging job at tag.start / tag.done across API calls on its tag and its referrers (delete + re-create with the same definition, referrers added, rename ...) and release it; 5 % restart actions. non-trivial = >=3 calls, distinct by call list",
+        "rule": "seeded call sequences (6-60 calls) on a fresh Manager with 13 streams and 3 converters; mark ids that share leading digits (1/10/11/12); names from valid/invalid pools, definitions: plain, id-only, referencing existing/missing/own tags, sub-query references, unparsable, relative time, grouping; stream ids in and out of range; 2/3 of the sequences wait for quiescence after every call (matches compared), 1/3 race with the tagging jobs; 1/5 contain multi-operation updates (oracle only); 1/6 of the sequences hold a tagging job at tag.start / tag.done across API calls on its tag and its referrers (delete + re-create with the same definition, referrers added, rename ...) and release it; 5 % restart actions. non-trivial = >=3 calls, distinct by call list",
         "sequences": len(seqs), "sequences_vs_model": len(modelable), "results": res_count, "error_kinds": kinds, "op_distribution": ops,
         "max_tags_in_table": maxtags, "disagreements_examined": examined,
         "tagging_jobs_held_across_calls": sum(1 for h in held if h), "hold_requests_without_job": sum(1 for h in held if not h),
